@@ -35,6 +35,10 @@ class Budget(EngineSignal):
     """Wall-clock budget of the query exhausted."""
 
 
+class SplitPoint(EngineSignal):
+    """Decision depth at which the DFS is handed to other workers was reached."""
+
+
 CTX: "Ctx | None" = None  # the context of the path being executed
 
 
@@ -91,6 +95,7 @@ class QueryResult:
     wall_s: float = 0.0
     labels: Counter = field(default_factory=Counter)
     error: str | None = None  # harness error (engine bug, not a verdict)
+    subprefixes: list = field(default_factory=list)  # DFS split: prefixes to explore elsewhere
 
 
 class Ctx:
@@ -114,6 +119,7 @@ class Ctx:
         self.deadline = budget_deadline
         self.n_sym_decisions = 0
         self.blocked: dict = {}
+        self.split_depth = None
         self.known_regions: dict = {}
 
     # -- solver plumbing ---------------------------------------------------------
@@ -192,6 +198,8 @@ class Ctx:
             self.solver.add(c)
             self.model = None
             return val
+        if self.split_depth is not None and i >= self.split_depth:
+            raise SplitPoint()
         self._ensure_model()
         mv = self.model.eval(expr, model_completion=True)
         cur = z3.is_true(mv)
@@ -300,6 +308,7 @@ def explore(
     max_secs: float = 600.0,
     prefix: list | None = None,
     keep_samples: int = 3,
+    split_depth: int | None = None,
 ) -> QueryResult:
     """Run ``fn`` over every feasible path (re-execution DFS)."""
     global CTX
@@ -310,11 +319,14 @@ def explore(
     cur = list(base)
     while True:
         c = Ctx(cur, deadline)
+        c.split_depth = split_depth
         CTX = c
         outcome: Any
         try:
             out = fn(c)
             outcome = ("ok", out)
+        except SplitPoint:
+            outcome = ("split", None)
         except PathAbort:
             outcome = ("abort", None)
         except Unsupported as e:
@@ -333,6 +345,18 @@ def explore(
             # an engine signal was raised but swallowed somewhere
             f = c.fatal
             outcome = ("budget", None) if isinstance(f, Budget) else ("unsupported", str(f))
+        if outcome[0] == "split":
+            res.subprefixes.append([(bool(a), bool(b)) for a, b in c.trace])
+            res.solver_calls += c.n_checks
+            res.solver_s += c.t_solver
+            tr = list(c.trace)
+            while len(tr) > len(base) and not (tr[-1][0] is True and tr[-1][1]):
+                tr.pop()
+            if len(tr) <= len(base):
+                res.exhaustive = True
+                break
+            cur = tr[:-1] + [(False, False)]
+            continue
         res.paths += 1
         res.decisions += len(c.trace)
         if c.n_sym_decisions:
